@@ -7,6 +7,10 @@ ALL = ["C%02d" % i for i in range(1, 21)]
 CODEC_NOTE = "Trusted: the reflection bridge (identity-checked on every case), the schema universe and alphabets, the reference codecs, the Go toolchain. Schemas enter as the generator's intermediate JSON (the Java parser is absent). Small-scope bounds: depth <= 2 (3 on spines), <= 5 entries, strings <= 2 chars over the metacharacter set + tokens."
 WIRE_NOTE = "Trusted: mc/wire (net/http serialisation + server-side parsing, no sockets), the reflection bridge and call/reply machinery, the resource universe. Resources enter as the generator's intermediate JSON. Association resources are not in the grammar (the generator does not support them)."
 CHECKS = {
+ "C08": dict(engine="enumx", category="model_checking", design="§3 C08",
+   technique="exhaustive enumeration of (method, implementation outcome) through generated client -> wire -> real server -> mock, with deep before/after snapshots of the error object held by the resource",
+   text="Every method of every resource x 70 outcomes (value, overridden status, typed nil result, ErrorResponse with each of the 64 subsets of {status, message, serviceErrorCode, exceptionClass, code, stackTrace} set, plain error, wrapped ErrorResponse, panic(string), panic(error)): the client error must carry an equal ErrorResponse, HTTP status = its status or 500, error header iff error; other failures must yield a status >= 400 carrying the message and never a crashed connection; successes must use the protocol default status unless overridden; the resource's error object must be bit-for-bit unchanged. Plus one error object shared by 3 sequential requests and all 27 assignments of {result, error, status} to 3 batch keys.",
+   note=WIRE_NOTE + " Concurrent sharing of error objects is C17's."),
  "C02": dict(engine="enumx", category="model_checking", design="§3 C02",
    technique="bounded-exhaustive enumeration of (resource, method, argument position, value, client/server configuration) through generated client -> in-memory HTTP wire -> real router -> generated mock resource and back; oracle = recorded mock arguments and client results equal the abstract call and scripted reply",
    text="Every method (11 rest methods, return-entity variants, 2 finders with params/paging/metadata, 5 actions) of every resource of the R-universe (collections keyed by string, int64, complex key [+ int32, bool, bytes, float64, enum, typerefs in thorough], simple, action set, sub-resources to 3 levels with 2 parent keys, collection under simple) is called with one argument deviating at a time over the value alphabets (full 1760-string alphabet on get keys, finder/action string parameters and created ids) under the default configuration and reduced alphabets under 9 configuration deviations (tunnelling thresholds 1 / 10^6, lenient, three resolver bases, ServeMux and prefix mounting). Exactly the matching resource method must run with equal keys, parameters, paging and body, and the client must return the scripted entity / elements+paging+metadata / action result / created id+status / batch results.",
